@@ -104,6 +104,9 @@ func c04extra() map[string]interface{} {
 			return fmt.Sprint(h.Value("vi"), rest), nil
 		},
 		"xhcimpl": func(h implHC) string { return "impl" },
+		"xvarstr": func(sep string, parts ...fmt.Stringer) string { return fmt.Sprint(len(parts)) },
+		"xvarerr": func(es ...error) int { return len(es) },
+		"xvarint": func(a int, xs ...int) int { return a + len(xs) },
 		"xhciface": func(h hctx.HelperContext) (string, error) {
 			if h.HasBlock() {
 				return h.Block()
@@ -249,6 +252,17 @@ func init() {
 		for _, t := range []string{"<%= xhcnamed() %>", "<%= xhcnamed(nil) %>", "<%= xhcnamed() { %>b<% } %>", "<%= xhcvar(nil, \"a\") %>", "<%= xhcvar(nil) { %>b<% } %>",
 			"<%= xhcvar(nil, \"a\", \"b\") { %>b<%= vi %><% } %>", "<%= xhcimpl() %>", "<%= xhcimpl(nil) %>", "<%= xhciface(nil) { %>b<% } %>", "<%= xhciface() %>"} {
 			e.c04case("helper-context-kinds", t, false, extra)
+		}
+		// variadic helpers: every argument kind in the variadic tail, element types that are interfaces with methods
+		for _, cal := range []string{"xvarstr(\",\"", "xvarerr(", "xvarint(1", "xfnvar("} {
+			for _, a := range append(append([]string{}, args...), "xstrer", "xnilstrer", "xerrs", "xnilfn", "xarr") {
+				sep := ", "
+				if strings.HasSuffix(cal, "(") {
+					sep = ""
+				}
+				e.c04case("variadic-kinds", fmt.Sprintf("<%%= %s%s%s) %%>", cal, sep, a), false, extra)
+				e.c04case("variadic-kinds", fmt.Sprintf("<%%= %s%s%s, %s) %%>", cal, sep, "xstrer", a), false, extra)
+			}
 		}
 		for _, x := range []string{"xfnerr", "xfnpanic", "xfnvar", "xfnmap", "xchan", "xtime"} {
 			for _, al := range lists[:40] {
